@@ -4,6 +4,7 @@
   buffers (any pass, any order, any deadline cut).
 -/
 import RapidProofs.Shrink
+import RapidProofs.PassRefine
 
 namespace Rapid.C05
 
@@ -34,5 +35,38 @@ theorem recording_not_larger (p : Prog) (ws : List UInt64) (ts : TS) : sle (chec
   checkOnce_kept_sle p ws ts
 
 example : slt [1, 2] [1, 3] ∧ slt [9] [0, 0] ∧ ¬ slt [1, 2] [1, 2] := by simp [slt, compareData, cmpLex]
+
+
+/-! ### the concrete shrinker: `removeGroups`, `minimizeBlocks` (+ `minimize`), `lowerFloatHack`,
+    `removeGroupsAndLower`, `sortGroups`, `removeGroupSpans` and the round loop -/
+
+/-- no index or slice expression evaluated by any pass is out of range — for every recording
+    whose groups lie inside its data, every sequence of accept/reject answers, every fuel.
+    (Fails for the code before the fix of D9: `buf[i]` in `minimizeBlocks` and
+    `s.rec.groups[j]` in `sortGroups` used positions of a recording that an accepted
+    candidate had just replaced by a shorter one.) -/
+theorem passes_never_index_out_of_range (F : Nat) : SafeAll (shrinkScript F) := safe_shrinkScript F
+
+/-- the passes, run against any property: no crash, and the run is the abstract shrinker on the
+    candidates the passes tried — so everything proved for every candidate sequence holds for
+    the shrinker as implemented, wherever its deadline cuts it -/
+theorem passes_refine_shrinkWith (p : Prog) (hP : PruneOK p) (hW : PruneWF p) (F : Nat) (s : SS) (hr : RecWF s.rc) :
+    ∃ s' cands, (shrinkScript F).run p s = .ok ((), s') ∧
+      shrinkWith p s.shr cands = (s'.rc.data, s'.err) ∧ s'.log = cands.reverse ++ s.log ∧ RecWF s'.rc :=
+  shrinkScript_run p hP hW F s hr
+
+/-- result of the concrete shrinker: not larger than the start, same failure site, pruned
+    recording of an executed failing run -/
+theorem concrete_shrinker_result (p : Prog) (hP : PruneOK p) (hW : PruneWF p) (F : Nat) (s : SS) (hr : RecWF s.rc)
+    (h : FromRun p s.shr) :
+    ∃ s', (shrinkScript F).run p s = .ok ((), s') ∧ sle s'.rc.data s.rc.data ∧ tbKey s'.err = tbKey s.err ∧
+      FromRun p ⟨s'.rc.data, s'.err⟩ := by
+  obtain ⟨s', cands, h1, h2, _, _⟩ := shrinkScript_run p hP hW F s hr
+  have := shrinkWith_spec p cands s.shr h
+  rw [h2] at this
+  exact ⟨s', h1, this.1, this.2.1, this.2.2⟩
+
+/-- the premises are satisfiable: the empty recording is well-formed -/
+example : RecWF Rec.empty := by intro g hg; cases hg
 
 end Rapid.C05
